@@ -201,7 +201,9 @@ func c01Invalids(c *Ctx) {
 			// object-level: return Null on Invalids > 0, after Dispatch
 			okRet := false
 			var disp ssa.Instruction
-			for _, call := range an.CallsIn(fn, func(_ ssa.CallInstruction, ci an.CalleeInfo) bool { return strings.HasSuffix(ci.FullName(), "graphql.FieldSet).Dispatch") }) {
+			for _, call := range an.CallsIn(fn, func(_ ssa.CallInstruction, ci an.CalleeInfo) bool {
+				return strings.HasSuffix(ci.FullName(), "graphql.FieldSet).Dispatch")
+			}) {
 				disp = call
 			}
 			for _, r := range an.Returns(fn) {
@@ -293,7 +295,9 @@ func (m *marshalCheck) check1(fn *ssa.Function, t *gast.Type, depth int) string 
 		// named type: 'null not allowed' error only for non-null
 		hasErr := false
 		for _, f := range an.WithClosures(fn) {
-			for _, call := range an.CallsIn(f, func(_ ssa.CallInstruction, ci an.CalleeInfo) bool { return strings.HasSuffix(ci.FullName(), "graphql.OperationContext).Errorf") }) {
+			for _, call := range an.CallsIn(f, func(_ ssa.CallInstruction, ci an.CalleeInfo) bool {
+				return strings.HasSuffix(ci.FullName(), "graphql.OperationContext).Errorf")
+			}) {
 				_ = call
 				hasErr = true
 			}
@@ -437,7 +441,9 @@ func c01OneError(c *Ctx) {
 	total := 0
 	for _, g := range c.Gen {
 		for _, fn := range c.genFuncs(g) {
-			for _, call := range an.CallsIn(fn, func(_ ssa.CallInstruction, ci an.CalleeInfo) bool { return strings.HasSuffix(ci.FullName(), "graphql.OperationContext).Errorf") }) {
+			for _, call := range an.CallsIn(fn, func(_ ssa.CallInstruction, ci an.CalleeInfo) bool {
+				return strings.HasSuffix(ci.FullName(), "graphql.OperationContext).Errorf")
+			}) {
 				dependsOnNull, guarded := false, false
 				for _, f := range an.Facts(call) {
 					if _, eq, ok := nullFact(f); ok && eq {
@@ -481,7 +487,9 @@ func c01PathCtx(c *Ctx) {
 			case strings.HasPrefix(name, "_") && isFieldFuncSig(fn):
 				// WithFieldContext(ctx, fc)
 				var wfc ssa.Instruction
-				for _, call := range an.CallsIn(fn, func(_ ssa.CallInstruction, ci an.CalleeInfo) bool { return ci.FullName() == pkgGraphql+".WithFieldContext" }) {
+				for _, call := range an.CallsIn(fn, func(_ ssa.CallInstruction, ci an.CalleeInfo) bool {
+					return ci.FullName() == pkgGraphql+".WithFieldContext"
+				}) {
 					fcArg := call.Common().Args[1]
 					if cc := an.AllExtractOf(fcArg, 0); cc != nil && strings.Contains(an.CalleeOf(cc).FullName(), "fieldContext_") {
 						wfc = call
@@ -540,7 +548,9 @@ func c01PathCtx(c *Ctx) {
 			total++
 			key := "gen:" + g.Name + "/" + fn.Name() + "/element-path"
 			ok := false
-			for _, call := range an.CallsIn(fn, func(_ ssa.CallInstruction, ci an.CalleeInfo) bool { return ci.FullName() == pkgGraphql+".WithFieldContext" }) {
+			for _, call := range an.CallsIn(fn, func(_ ssa.CallInstruction, ci an.CalleeInfo) bool {
+				return ci.FullName() == pkgGraphql+".WithFieldContext"
+			}) {
 				// fc literal: store to field Index of an Alloc of FieldContext; value is the address of a per-iteration cell (Alloc inside the loop)
 				for _, d := range an.Defs(call.Common().Args[1]) {
 					al, isAl := d.(*ssa.Alloc)
@@ -601,7 +611,9 @@ func (c *Ctx) argsPath(g *GenPkg, fn *ssa.Function, total *int) {
 			// the WithPathContext call for this argument
 			var wp ssa.Instruction
 			same := false
-			for _, call := range an.CallsIn(fn, func(_ ssa.CallInstruction, ci an.CalleeInfo) bool { return ci.FullName() == pkgGraphql+".WithPathContext" }) {
+			for _, call := range an.CallsIn(fn, func(_ ssa.CallInstruction, ci an.CalleeInfo) bool {
+				return ci.FullName() == pkgGraphql+".WithPathContext"
+			}) {
 				for _, d := range an.Defs(call.Common().Args[1]) {
 					if cc, ok := d.(*ssa.Call); ok && an.CalleeOf(cc).FullName() == pkgGraphql+".NewPathWithField" {
 						if s, ok := an.ConstString(cc.Call.Args[0]); ok && s == k {
